@@ -73,7 +73,7 @@ if __name__ == "__main__":
     rng = run.rng
     ks = sorted({2, 3, CORES // 2, CORES}) if tier == "quick" else list(range(2, CORES + 1))
     ks = [k for k in ks if 2 <= k <= CORES]
-    sizes = [3, 4, 6, 9, 12, 14] if tier == "quick" else [3, 4, 5, 6, 8, 10, 12, 14, 16, 18, 20]
+    sizes = [3, 4, 6, 9, 12, 14] if tier == "quick" else [3, 4, 5, 6, 8, 10, 12, 14, 16, 18]
     texts = []
     meta = []
     bases = []
@@ -82,7 +82,9 @@ if __name__ == "__main__":
             s = rng.randrange(1 << 30)
             acts = base_history(rng, n)
             bases.append((s, acts, n))
-            variants = [("single", acts)] + [("k=%d#%d" % (k, r), with_threads(acts, k)) for k in ks for r in (0, 1)]
+            # the largest registers (dumps of 2^16 and more amplitudes) run under four worker counts only
+            kk = ks if n <= 14 else sorted({ks[0], 3 if 3 in ks else ks[0], 7 if 7 in ks else ks[-1], ks[-1]})
+            variants = [("single", acts)] + [("k=%d#%d" % (k, r), with_threads(acts, k)) for k in kk for r in ((0, 1) if n <= 14 else (0,))]
             for name, a in variants:
                 texts.append((str(len(texts)), regcheck.hist_harness(s, a)))
                 meta.append((len(bases) - 1, name))
